@@ -37,6 +37,7 @@ import (
 type simResult struct {
 	Viol     string   `json:"violation,omitempty"`
 	Facet    string   `json:"facet,omitempty"`
+	Facet2   string   `json:"facet2,omitempty"` // the same observation also violates this facet's property (stop while paused: C14 and C03)
 	Fetches  []Fetch  `json:"fetches"`
 	Finished []string `json:"finished"`
 	Produced []string `json:"produced"`
@@ -105,6 +106,9 @@ func runCase(c Case) (res simResult) {
 					res.Viol += " (and afterwards the pipeline could not be stopped: a stage worker is stuck for ever)"
 				}
 				res.Fetches = p.Net.Log()
+				if res.Facet2 != "" {
+					veriflib.WriteFailure(res.Facet2[:3], res.Facet2, c, res, res.Viol)
+				}
 				veriflib.WriteFailure(res.Facet[:3], res.Facet, c, res, res.Viol)
 				veriflib.JournalDone()
 				veriflib.Flush()
@@ -231,6 +235,7 @@ func runCase(c Case) (res simResult) {
 					// release the parked workers so that the stop (and the bubble) can end
 					go pause.Resume()
 					stopped = waitDone(lastDone)
+					res.Facet2 = "C03/sim" // C03 names "while the pipeline is paused" among the stop moments
 					return fail("C14/pipeline", "a stop issued while the pipeline was paused did not return within a virtual hour: stage workers stay parked waiting for a resume"), true
 				}
 				stopped = true
@@ -618,6 +623,9 @@ func propSim(t veriflib.TB, outer *testing.T, c Case, feats map[string]bool) {
 	if res.Viol != "" {
 		if res.Facet == "harness" {
 			t.Fatalf("%s", res.Viol)
+		}
+		if res.Facet2 != "" {
+			veriflib.WriteFailure(res.Facet2[:3], res.Facet2, c, res, res.Viol)
 		}
 		veriflib.Fail(t, res.Facet[:3], res.Facet, c, res, "%s", res.Viol)
 	}
